@@ -782,6 +782,10 @@ impl Router {
 
                             self.scheduler.untrack(id, filter);
                             self.datalog.remove_waiters_for_id(id, filter);
+                            // a publish earlier in this read has woken the parked request already:
+                            // it waits in `notifications` to be put back on the tracker
+                            self.notifications
+                                .retain(|(cid, request)| *cid != id || request.filter != *filter);
                             reasons.push(UnsubAckReason::Success);
                         } else {
                             reasons.push(UnsubAckReason::NoSubscriptionExisted);
